@@ -112,6 +112,12 @@ func checkReceipts(t interface {
 		go func() {
 			defer close(c.done)
 			c.pan = ev.Guard(func() {
+				if c.k%2 == 1 {
+					// the variant that takes the whole message as a token reader
+					msg := xt.El(ns, "message", []xml.Attr{xt.A("id", c.id()), xt.A("type", "chat")}, xt.El(ns, "body", nil, xt.Tx("hi")))
+					c.err = h.SendMessage(c.ctx, sv.Session, msg.Reader())
+					return
+				}
 				c.err = h.SendMessageElement(c.ctx, sv.Session, xt.El(ns, "body", nil, xt.Tx("hi")).Reader(),
 					stanza.Message{ID: c.id(), Type: stanza.ChatMessage})
 			})
